@@ -181,6 +181,7 @@ impl Scenario for EcdsaNet {
                 break;
             }
             ctx.seq = seq;
+            ctx.crumb(jstr(ev, "op"));
             match jstr(ev, "op") {
                 "sign" | "resign" => {
                     let is_resign = jstr(ev, "op") == "resign";
